@@ -241,6 +241,35 @@ def _ba_oracle(args, run=None):
         if got.shape != want.shape or not np.array_equal(got, want, equal_nan=True):
             fails.append(f"post:window {w} of the assembled array equals the same window of the dense mosaic (present blocks copied, the rest filled)")
             break
+    # N-d windows: a single plane / a sub-range of the non-spatial axis, combined with a Y/X window
+    if present and extra and not fails:
+        n_extra = extra[0]
+        yx = wins[len(wins) // 2]
+        nd = []
+        for p_ in range(n_extra):
+            nd.append((p_, *yx) if pre else (*yx, p_))
+        if n_extra >= 3:
+            nd.append((slice(1, 3), *yx) if pre else (*yx, slice(1, 3)))
+        for w in nd:
+            try:
+                got = ba.extract(fill, roi=w)
+            except Exception as e:  # pylint: disable=broad-except
+                fails.append(f"no-exception:{type(e).__name__} for the N-d window {w}: {e}")
+                break
+            want = dense[w]
+            if got.shape != want.shape or not np.array_equal(got, want, equal_nan=True):
+                fails.append(f"post:N-d window {w} (one plane / a range of the non-spatial axis) equals the same window of the dense mosaic")
+                break
+        if not fails:
+            planes = list(ba.planes_yx())
+            for roi_ in planes:
+                got = ba.extract(fill, roi=roi_)
+                want = dense[roi_]
+                if got.shape != want.shape or not np.array_equal(got, want, equal_nan=True):
+                    fails.append(f"post:plane {roi_} of planes_yx() equals the same plane of the dense mosaic")
+                    break
+            if len(planes) != n_extra:
+                fails.append("post:planes_yx() enumerates one Y/X plane per index of the non-spatial axis")
     return fails
 
 
@@ -482,3 +511,105 @@ def _lemma_graph_name():
 
 
 lemma("dask.graph_name_token", ["C13"], inputs=dict(), body=_lemma_graph_name, note="structural (AST) obligation on the tree under verification: two lazy reprojections that differ in any input never share dask task keys, so evaluating them in one graph cannot mix their results")
+
+
+# ---- BlockAssembler.extract: which part of which block goes where (numpy is a recording ghost) ---------------------------------------------
+
+
+def _lemma_ba_extract_flow(axis, roi_kind, p, y0, y1, x0, x1, fill):
+    """the real extract() on a 2 x 1 mosaic of ghost blocks with one extra axis of length 3 (leading for axis=1,
+    trailing for axis=0): every block is pasted from THE WINDOW's slice of the non-spatial axis into the FULL
+    extent of that axis of the (already cropped) output"""
+    m = repo(BL)
+    log = []
+
+    class GhostArr:
+        def __init__(self, tag, dtype="int16"):
+            import numpy as np
+
+            self.tag, self.dtype = tag, np.dtype(dtype)
+
+        def __getitem__(self, idx):
+            return ("view", self.tag, idx)
+
+    class GhostNp:
+        def __getattr__(self, k):
+            import numpy as np
+
+            return getattr(np, k)
+
+        def full(self, shape, fill_value, dtype=None):
+            log.append(("full", tuple(shape), fill_value, dtype))
+            return GhostArr("out", dtype)
+
+        def copyto(self, dst, src, casting="same_kind"):
+            log.append(("copyto", dst, src, casting))
+
+        def squeeze(self, a, axis=None):
+            log.append(("squeeze", axis))
+            return ("squeezed", a.tag, axis)
+
+    E = 3
+    ba = object.__new__(m.BlockAssembler)
+    blocks = {(0, 0): GhostArr("b00"), (1, 0): GhostArr("b10")}
+    shape = (E, 7, 5) if axis == 1 else (7, 5, E)
+    for k_, v_ in dict(_shape=shape, _dtype=__import__("numpy").dtype("int16"), _axis=axis, _blocks=blocks).items():
+        object.__setattr__(ba, k_, v_)
+
+    class Tiles:
+        def __getitem__(self, idx):
+            return (slice(0, 4), slice(0, 5)) if idx == (0, 0) else (slice(4, 7), slice(0, 5))
+
+    object.__setattr__(ba, "_tiles", Tiles())
+    yx = (slice(y0, y1), slice(x0, x1))
+    if roi_kind == "yx":
+        roi, eroi, sq = yx, slice(0, E), ()
+    elif roi_kind == "plane":
+        roi = (p, *yx) if axis == 1 else (*yx, p)
+        eroi, sq = slice(p, p + 1), ((0,) if axis == 1 else (2,))
+    else:
+        roi = (slice(1, 3), *yx) if axis == 1 else (*yx, slice(1, 3))
+        eroi, sq = slice(1, 3), ()
+    saved = m.np
+    try:
+        m.np = GhostNp()
+        out = ba.extract(fill, roi=roi)
+    finally:
+        m.np = saved
+    with_e = (lambda a, b: (eroi, a, b)) if axis == 1 else (lambda a, b: (a, b, eroi))
+    everything_e = (lambda a, b: (slice(None), a, b)) if axis == 1 else (lambda a, b: (a, b, slice(None)))
+    ne = eroi.stop - eroi.start
+    fulls = [e for e in log if e[0] == "full"]
+    claim(len(fulls) == 1 and fulls[0][1] == ((ne, y1 - y0, x1 - x0) if axis == 1 else (y1 - y0, x1 - x0, ne)), "the output has the window's shape (non-spatial axis included)")
+    claim(fulls[0][2] == (fill if fill is not None else 0), "... initialised with the fill value (0 for integers when none is given)")
+    cps = [e for e in log if e[0] == "copyto"]
+    claim(len(cps) == 2, "every available block is considered once")
+    for (tag, (ty0, ty1)), cp in zip((("b00", (0, 4)), ("b10", (4, 7))), cps):
+        # rows of this block that fall into the window, in block and in window coordinates
+        s0, s1 = Max(ty0, y0), Min(ty1, y1)
+        dst_view, src_view = cp[1], cp[2]
+        claim(src_view[1] == tag and dst_view[1] == "out", f"{tag}: copied from that block into the output")
+        sy, sx = (src_view[2][1], src_view[2][2]) if axis == 1 else (src_view[2][0], src_view[2][1])
+        dy, dx = (dst_view[2][1], dst_view[2][2]) if axis == 1 else (dst_view[2][0], dst_view[2][1])
+        se = src_view[2][0] if axis == 1 else src_view[2][2]
+        de = dst_view[2][0] if axis == 1 else dst_view[2][2]
+        claim(Implies(s1 > s0, And(sy.start == s0 - ty0, sy.stop == s1 - ty0, dy.start == s0 - y0, dy.stop == s1 - y0)), f"{tag}: the shared rows, in the block's and in the window's own coordinates")
+        claim(Implies(s1 <= s0, And(sy.stop <= sy.start, dy.stop <= dy.start)) if True else True, f"{tag}: nothing copied when the block misses the window")
+        claim(And(sx.start == x0, sx.stop == x1, dx.start == 0, dx.stop == x1 - x0), f"{tag}: the window's columns")
+        claim(se == eroi, f"{tag}: read from the WINDOW's part of the non-spatial axis")
+        claim(de == slice(None), f"{tag}: written across the WHOLE non-spatial axis of the (already cropped) output")
+    if sq:
+        claim(out == ("squeezed", "out", sq), "an axis indexed with a single integer is squeezed out of the result")
+    else:
+        claim(isinstance(out, GhostArr) and out.tag == "out" and not any(e[0] == "squeeze" for e in log), "no squeezing otherwise")
+
+
+lemma(
+    "blocks.extract_flow",
+    ["C04", "C13"],
+    inputs=dict(axis=OneOf(0, 1), roi_kind=OneOf("yx", "plane", "range"), p=OneOf(0, 1, 2), y0=Int(ge=0), y1=Int(), x0=Int(ge=0), x1=Int(), fill=OneOf(None, 7)),
+    requires=[lambda y0, y1, x0, x1: And(y0 < y1, y1 <= 7, x0 < x1, x1 <= 5)],
+    body=_lemma_ba_extract_flow,
+    unstub=[f"{BL}:BlockAssembler.extract", "odc.geo.roi:roi_intersect3", "odc.geo.roi:slice_intersect3", "odc.geo.roi:_norm_slice_or_error", "odc.geo.roi:roi_shape", "odc.geo.roi:roi_normalise", "odc.geo.roi:_norm_slice"],
+    note="data flow of the real extract() over ghost blocks and a recording numpy: symbolic Y/X window on a 2 x 1 mosaic with a non-spatial axis of length 3 (leading or trailing), window = Y/X only, one plane, or a sub-range; the per-axis intersection arithmetic is roi_intersect3's contract",
+)
